@@ -56,6 +56,9 @@ class FlowPolicy(Policy):
         self.atom_attrs = set()
         self.acquire_labels = set()
         self._pending_acquire = {}
+        self.raising_labels = set()
+        self.raising_suffixes = ()
+        self.trace_handlers = False
         self.widen_locals = False
         if inline:
             self.inline_depth = 3
@@ -126,7 +129,9 @@ class FlowPolicy(Policy):
         if isinstance(fval, FuncV) and fval.closure and self.inline_nested(fval):
             return None
         # un-inlined call
-        if not self.is_no_raise(label) and self.may_raise_all:
+        if label in self.raising_labels or (label and any(label.endswith(x) for x in self.raising_suffixes)):
+            out.add("raise", cfg.set("$exc", ExcV("Exception", f"user code via {label} L{getattr(node, 'lineno', 0)}")))
+        elif not self.is_no_raise(label) and self.may_raise_all:
             out.add("raise", cfg.set("$exc", ExcV("Exception", f"call {label or '?'} L{getattr(node, 'lineno', 0)}")))
         if label in PURE_FUNCS:
             return [(cfg, App(label, tuple(args)))]
